@@ -388,22 +388,18 @@ func c01Outcome(c *mc.Ctx, res *proj.RunResult, l *c01Ledger, sp c01Spec, w []st
 	}
 }
 
-// c01Sweep forces every sub-step count n in [NFrom, NTo]: a calibration run reads the state before the
-// rain day, the rain that makes ceil(ZSR) = n is computed with the model's own rule, and the run is repeated.
-func c01Sweep(sp c01Spec, c *mc.Ctx, root string) {
-	from, to := sp.NFrom, sp.NTo
-	if sp.N > 0 {
-		from, to = sp.N, sp.N
-	}
+// substepSweep forces every sub-step count n in [from, to]: a calibration run reads the state before the rain day, the
+// rain that makes the time-stepping rule choose n is computed with the model's own rule, and run is called for each n
+// with the project (weather written) for that rain.
+func substepSweep(base e1Base, from, to int, c *mc.Ctx, root string, run func(n int, rainMM float64, p *proj.Project, start int)) {
 	ndays := 2 + 1 + 1
-	p := e1Project(sp.Base, ndays)
+	p := e1Project(base, ndays)
 	word := []string{"rain", "mild"}
 	p.Weather = e1Weather(0, word, false)
 	p.Write(root)
 	start := proj.ZEIT(proj.D(p.Rotation[0].Harvest))
 	rainDay := start + 2
 	// calibration: capacity terms of the time-stepping rule on the rain day
-	var minUnit float64
 	var fsc [21]float64
 	var wl [21]float64
 	var nl int
@@ -423,7 +419,6 @@ func c01Sweep(sp c01Spec, c *mc.Ctx, root string) {
 		c.Violate("run-error", fmt.Sprintf("calibration run failed: %s %s", r.Err, r.Panic), nil)
 		return
 	}
-	_ = minUnit
 	zsr := func(rain float64) float64 { // rain in cm; the rule of run.go
 		z := 1.0
 		pri := math.Abs(rain*10 - 0.3) // FLUSS0*DZ ~ rain minus a small evaporation; floor of the rule
@@ -459,6 +454,16 @@ func c01Sweep(sp c01Spec, c *mc.Ctx, root string) {
 		p.Weather = e1Weather(0, word, false)
 		p.Weather[5] = d
 		writeWeather(root, p)
+		run(n, rainMM, p, start)
+	}
+}
+
+func c01Sweep(sp c01Spec, c *mc.Ctx, root string) {
+	from, to := sp.NFrom, sp.NTo
+	if sp.N > 0 {
+		from, to = sp.N, sp.N
+	}
+	substepSweep(sp.Base, from, to, c, root, func(n int, rainMM float64, p *proj.Project, start int) {
 		l := &c01Ledger{c: c, measDay: start + 1, label: fmt.Sprintf("sub-step sweep n=%d rain=%gmm", n, rainMM)}
 		nv := len(c.Viol)
 		res := proj.Run(root, p.Args(root), l.probe())
@@ -477,7 +482,7 @@ func c01Sweep(sp c01Spec, c *mc.Ctx, root string) {
 				c.Viol[i].Spec = b
 			}
 		}
-	}
+	})
 	c.Sample(map[string]interface{}{"sweep_soil": sp.Base.Soil, "n_from": from, "n_to": to})
 }
 
